@@ -76,6 +76,7 @@ type FuncSpec struct {
 	FloatReal   bool
 	Assume      bool
 	Havoc       bool
+	ModPkgs     []string
 	Ghost       bool
 	IsProc      bool
 	Fn          *ssa.Function
@@ -219,6 +220,10 @@ func parseContractFile(path string) (*ContractFile, error) {
 			case "ensures":
 				cur.Ensures = append(cur.Ensures, mkClause(rest, s.no, fmt.Sprintf("e%d", len(cur.Ensures)+1)))
 			case "modifies":
+				if strings.HasPrefix(rest, "pkg ") {
+					cur.ModPkgs = append(cur.ModPkgs, strings.Fields(rest)[1:]...)
+					break
+				}
 				cur.HasModifies = true
 				if rest != "nothing" && rest != "" {
 					cur.Modifies = append(cur.Modifies, splitTop(rest, ',')...)
